@@ -6,7 +6,7 @@ import ast
 from ..cfg import Policy
 from ..effects import last_assignment, sql_statement
 from ..kinds import alts
-from ..loader import norm, walk_local
+from ..loader import ancestors, norm, walk_local
 from ..report import Check
 from ..solver import Machine, Violation
 from ..solver import run as solve
@@ -335,6 +335,21 @@ def run(ctx, host=None):
         chk.ok(R4, ra.qualname, norm(lps[0].iter), detail='every existing pack is repacked')
     else:
         chk.bad(R4, ra.qualname, 'for pack_id in self._list_packs()', 'repack() no longer visits every existing pack', where=f'{ra.module.relpath}:{ra.lineno}')
+
+    # the listing repack() iterates over never yields the scratch id: an interrupted repack leaves that file behind, and repack_pack asserts on it
+    lp = prog.fn('container:Container._list_packs')
+    vcalls = [c for c in walk_local(lp.node) if isinstance(c, ast.Call) and norm(c.func).endswith('_is_valid_pack_id')]
+    chk.require(vcalls, '_list_packs: no _is_valid_pack_id call found')
+    loose_calls = [c for c in vcalls if len(c.args) > 1 or any(k.arg == 'allow_repack_pack' and not (isinstance(k.value, ast.Constant) and k.value.value is False) for k in c.keywords) or any(k.arg is None for k in c.keywords)]
+    ys = [y for y in walk_local(lp.node) if isinstance(y, (ast.Yield, ast.YieldFrom))]
+    guarded = all(any(isinstance(a, ast.If) and any(c in list(ast.walk(a.test)) for c in vcalls) for a in ancestors(y)) for y in ys) if ys else False
+    if loose_calls:
+        chk.bad(R4, lp.qualname, norm(loose_calls[0]), 'the pack listing accepts the scratch pack id of repack: after an interrupted repack the leftover scratch file is listed as a pack, '
+                'and repack() then trips the assertion in repack_pack instead of reclaiming space (count/size reports include it too)', where=f'{lp.module.relpath}:{loose_calls[0].lineno}')
+    elif not guarded:
+        chk.bad(R4, lp.qualname, 'yield', 'a name is yielded by _list_packs without passing _is_valid_pack_id (lock files, the scratch pack of an interrupted repack)', where=f'{lp.module.relpath}:{lp.lineno}')
+    else:
+        chk.ok(R4, lp.qualname, norm(vcalls[0]), detail='only valid pack ids are listed; the repack scratch id is not one of them')
 
     # rules of other properties that are necessary conditions of this one too: a repack that records wrong ranges makes the other objects unreadable (C03)
     if host is None:
